@@ -1163,11 +1163,37 @@ def check_wb(case, ctx):
         _common_ratio(ctx, per, 'wb_postscale')
 
 
+# ---- the configured precision (prysm.conf.config.precision) is part of the environment of every call: nothing in the property depends on it ----
+def _with_prec(strat):
+    def f(tier):
+        return st.tuples(strat(tier), st.sampled_from([64, 64, 64, 32])).map(lambda t: dict(t[0], prec=t[1]))
+    return f
+
+
+def _enum_with_prec(enum):
+    def f(tier):
+        for case in enum(tier):
+            yield case
+            yield dict(case, prec=32)
+    return f
+
+
+def _at_precision(inner):
+    def check(case, ctx):
+        prec = case.get('prec', 64)
+        if prec != 64:
+            ctx.label('config.precision=%d' % prec)
+        with U.precision(prec):
+            inner(case, ctx)
+    check.__doc__ = inner.__doc__
+    return check
+
+
 CLAUSES = [
-    EnumClause('adc_ceiling_all_bits', enum_ceiling, check_ceiling, shards={'quick': 2, 'thorough': 2}),
-    HypClause('expose_noise_free', strat_detector, check_noise_free, examples={'quick': 600, 'thorough': 3000}, shards={'quick': 3, 'thorough': 6}),
-    HypClause('expose_noisy_range', strat_detector, check_noisy_range, examples={'quick': 300, 'thorough': 2000}, shards={'quick': 2, 'thorough': 4}),
-    HypClause('bindown_tile', strat_bin, check_bin, examples={'quick': 600, 'thorough': 3000}, shards={'quick': 2, 'thorough': 4}),
-    HypClause('bayer_sites', strat_bayer, check_bayer, examples={'quick': 500, 'thorough': 2000}, shards={'quick': 2, 'thorough': 4}),
-    HypClause('white_balance', strat_wb, check_wb, examples={'quick': 300, 'thorough': 2000}, shards={'quick': 2, 'thorough': 2}),
+    EnumClause('adc_ceiling_all_bits', _enum_with_prec(enum_ceiling), _at_precision(check_ceiling), shards={'quick': 2, 'thorough': 2}),
+    HypClause('expose_noise_free', _with_prec(strat_detector), _at_precision(check_noise_free), examples={'quick': 600, 'thorough': 3000}, shards={'quick': 3, 'thorough': 6}),
+    HypClause('expose_noisy_range', _with_prec(strat_detector), _at_precision(check_noisy_range), examples={'quick': 300, 'thorough': 2000}, shards={'quick': 2, 'thorough': 4}),
+    HypClause('bindown_tile', _with_prec(strat_bin), _at_precision(check_bin), examples={'quick': 600, 'thorough': 3000}, shards={'quick': 2, 'thorough': 4}),
+    HypClause('bayer_sites', _with_prec(strat_bayer), _at_precision(check_bayer), examples={'quick': 500, 'thorough': 2000}, shards={'quick': 2, 'thorough': 4}),
+    HypClause('white_balance', _with_prec(strat_wb), _at_precision(check_wb), examples={'quick': 300, 'thorough': 2000}, shards={'quick': 2, 'thorough': 2}),
 ]
